@@ -22,6 +22,7 @@ Formats == [
   rulevars |-> [max |-> 6, tokens |-> <<"$command ", "$rspfile_content ", "$description ", "$x ", "$undefined ", "$y ", "text ", "|", "$in ", "$out">>],
   dyndep   |-> [max |-> 5, tokens |-> <<"ninja_dyndep_version", "=", "1", "build ", "out", "o2", ":", "dyndep", "|", "||", " ", "  restat", "\n", "$", "x", "zz", "1.1", "\r\n">>],
   depfile  |-> [max |-> 6, tokens |-> <<"a", " ", "\\", ":", "#", "$", "\n", "\r", "%", "\t", <<128>>, <<0>>>>],
+  depload  |-> [max |-> 6, tokens |-> <<"a", " ", "\\", ":", "#", "$", "\n", "b", "a.d", <<0>>>>],
   cl       |-> [max |-> 5, tokens |-> <<"Note: including file: ", "a.h", "\n", "\r", " ", "x.cc", "Program Files", ":", "\\">>],
   makeflags |-> [max |-> 6, tokens |-> <<"--jobserver-auth=", "--jobserver-fds=", "fifo:", "3", ",", "-", "n", " ", "\t", "j", "x", "/", "--", "=">>],
   status   |-> [max |-> 5, tokens |-> <<"%", "s", "t", "p", "r", "u", "f", "o", "c", "e", "w", "E", "W", "P", "x", "[", "/", " ", "\n", <<27>>, "[K">>],
